@@ -190,6 +190,12 @@ func InjectReplay(in string, t *world.Tracer, every int) (n, badInject, disagree
 				n++
 				continue
 			}
+			if disagree >= 200 {
+				// enough disagreements are on record for TLC to judge; the rest are only counted
+				disagree++
+				n++
+				continue
+			}
 			// disagreement: inject again and record it
 			if e := d.Inject(&tr.W); e != nil {
 				return n, badInject, disagree, e
